@@ -33,7 +33,7 @@ MkRow(fam, prog) ==
    owf |-> (IF cc.ok THEN WellFormed([code |-> oc.code, consts |-> oc.consts, funcs |-> oc.funcs]) ELSE TRUE),
    done |-> TRUE]
 
-NK == 37
+NK == Flow!NKinds
 Init ==
   \/ \E k1 \in 1..NK, sh \in {"nest2", "seq2"} : row = [k |-> "f0", k1 |-> k1, sh |-> sh, done |-> FALSE]
   \/ \E t \in 1..18 : row = [k |-> "s0", t |-> t, done |-> FALSE]
